@@ -109,6 +109,9 @@ class EditHooks(Hooks):
                     it.violate('C15.wellformed', {'call': fn, 'after': 'ok' if out.ok else 'refused'},
                                'after %s %s the spectrum %s is malformed: %s'
                                % ('a successful' if out.ok else 'a refused', fn, k, why), i)
+        if tag.get('reasked'):
+            it.fault('dup')
+            it.probe('query_repeated_after_edit')
         if fn in EDITS and not out.ok:
             it.fault('refuse')
             it.probe('refused:' + fn.split('.')[1])
@@ -368,7 +371,7 @@ class SpectrumEditScenario(Scenario):
                    'scipy.integrate.simpson is trusted as the reference for Simpson totals']
     must_hit = ['refused:resample', 'refused:append', 'crop:at-sample', 'crop:between', 'pad:inside', 'pad:outside',
                 'bin:trapz/symmetric/pp', 'bin:trapz/inside/raw', 'bin:simps/symmetric/raw', 'bin:simps/inside/pp',
-                'bin_linear_exact', 'bin_power', 'nonuniform_grid', 'idem']
+                'bin_linear_exact', 'bin_power', 'nonuniform_grid', 'idem', 'query_repeated_after_edit']
     probe_names = must_hit + ['coldwarm_audit', 'refused:to', 'refused:pad', 'refused:trim', 'refused:crop']
 
     def make_fns(self):
@@ -656,6 +659,7 @@ class SpectrumEditScenario(Scenario):
             self.new_spectrum(rng, -1, sid, events, models)
             sids.append(sid)
         nsteps = rng.randint(4, 25)
+        asked = {sid: [] for sid in sids}      # queries already issued per spectrum
         for _ in range(nsteps):
             sid = rng.choice(sids)
             m = models[sid]
@@ -663,6 +667,14 @@ class SpectrumEditScenario(Scenario):
                 continue
             if rng.random() < 0.5:
                 e = self.edit(rng, 0, sid, m, events, models, counter)
+                # F6 across an edit: the reader repeats an earlier question, word for word, about the edited object
+                if asked[sid] and rng.random() < 0.5:
+                    q = copy.deepcopy(rng.choice(asked[sid]))
+                    counter[0] += 1
+                    q['id'] = 'c%d_rq%d' % (q['c'], counter[0])
+                    q.setdefault('t', {})['reasked'] = True
+                    q['t'].pop('linear', None)
+                    events.append(q)
                 # F6 duplicate: crop / trim / pad with the same arguments twice == once
                 if e and e['fn'] in ('Spectrum.crop', 'Spectrum.trim', 'Spectrum.pad') and rng.random() < 0.25:
                     d = copy.deepcopy(e)
@@ -670,7 +682,9 @@ class SpectrumEditScenario(Scenario):
                     d.setdefault('t', {})['dup'] = True
                     events.append(d)
             else:
+                n0 = len(events)
                 self.query(rng, K - 1, sid, m, events, counter)
+                asked[sid] += [e for e in events[n0:] if e['fn'] in ('Spectrum.integrate', 'Spectrum.bin', 'Spectrum.sample')]
         return {'scenario': self.name, 'world': world, 'events': events}
 
     def prelude(self, verif_seed):
@@ -703,6 +717,9 @@ class SpectrumEditScenario(Scenario):
             # a refused resample and a refused append in the middle of an edit sequence, then keep editing
             events.append({'c': 0, 'fn': 'Spectrum.crop', 'a': [ref, w[1], w[9]], 'id': 'e1', 't': {'cut': 'at-sample'}, 'inplace': [ref]})
             events.append({'c': 0, 'fn': 'Spectrum.crop', 'a': [ref, w[1], w[9]], 'id': 'e1d', 't': {'cut': 'at-sample', 'dup': True}, 'inplace': [ref]})
+            events.append({'c': 0, 'fn': 'Spectrum.integrate', 'a': [ref], 'k': {'method': 'trapz', 'start': w[2], 'end': w[8]}, 'id': 'q_pre'})
+            events.append({'c': 0, 'fn': 'Spectrum.crop', 'a': [ref, w[3], w[9]], 'id': 'e1b', 't': {'cut': 'at-sample'}, 'inplace': [ref]})
+            events.append({'c': 0, 'fn': 'Spectrum.integrate', 'a': [ref], 'k': {'method': 'trapz', 'start': w[2], 'end': w[8]}, 'id': 'q_post', 't': {'reasked': True}})
             events.append({'c': 0, 'fn': 'Spectrum.resample', 'a': [ref, [w[5], w[3]]], 'k': {'waveunit': m.unit}, 'id': 'e2',
                            't': {'expect': 'refuse', 'must_refuse': True, 'why': 'unsorted'}, 'inplace': [ref]})
             events.append({'c': 0, 'fn': 'Spectrum.integrate', 'a': [ref], 'k': {'method': 'trapz'}, 'id': 'q_after_refusal'})
